@@ -88,14 +88,15 @@ def items(tier):
             got = 0
             for tlab, mk, args, argnums in _templates():
                 call = mk(f)
+                always = tlab == "f(x, y, z)"  # three arrays (the third is often an out= buffer): tried for every callable, outside the budget
+                if got >= max_t and not always:
+                    continue
                 if not _accepts(call, args):
                     continue
-                got += 1
+                got += 0 if always else 1
                 for k in argnums:
                     for mode in ("vjp", "jvp"):
                         out.append((mode, Config("%s.%s" % (sname, n), "SWEEP %s.%s %s" % (sname, n, tlab.replace("f(", n + "(")), call, args, k, tags=("sweep",))))
-                if got >= max_t:
-                    break
             if got == 0:
                 untemplated.append("%s.%s" % (sname, n))
     # ArrayBox attributes and operators
